@@ -8,6 +8,7 @@ package query
 import (
 	"errors"
 	"fmt"
+	"sort"
 	"strings"
 
 	"github.com/apmckinlay/gsuneido/compile"
@@ -139,7 +140,105 @@ func isEmptyStr(v core.Value) bool {
 
 type env map[string]string // column -> packed value
 
+// arithOps: operators of purely arithmetic / concatenation subtrees. Such a
+// subtree is compiled as a whole (`function (cols) { return <text> }`) and
+// called, because the compiler's folder regroups nested sums and products
+// (a + (b + c) becomes a + b + c), and 16 digit decimal arithmetic is not
+// associative on inexact values: the language, not the written grouping, is
+// the semantics.
+var arithOps = map[string]bool{"+": true, "-": true, "*": true, "neg": true, "$": true}
+
+func (e *exprT) pureArith() bool {
+	if e.op == "col" || e.op == "const" {
+		return true
+	}
+	if !arithOps[e.op] {
+		return false
+	}
+	for _, a := range e.args {
+		if !a.pureArith() {
+			return false
+		}
+	}
+	return true
+}
+
+type compiledT struct {
+	fn     core.Value
+	params []string
+	object bool // more than 4 columns: passed as members of one object
+}
+
+var compiledExprs = map[string]*compiledT{}
+
+func (e *exprT) evalCompiled(row env) (v core.Value, err error) {
+	text := e.String()
+	c := compiledExprs[text]
+	if c == nil {
+		cols := map[string]bool{}
+		e.columns(cols)
+		c = &compiledT{}
+		for _, g := range sortedKeys(cols) {
+			c.params = append(c.params, g)
+		}
+		src := "function (" + strings.Join(c.params, ", ") + ") { return " + text + " }"
+		if len(c.params) > 4 {
+			c.object = true
+			src = "function (verifrow) { "
+			for _, p := range c.params {
+				src += p + " = verifrow." + p + "; "
+			}
+			src += "return " + text + " }"
+		}
+		func() {
+			defer func() {
+				if x := recover(); x != nil {
+					err = fmt.Errorf("compile %s: %v", src, x)
+				}
+			}()
+			c.fn = compile.Constant(src)
+		}()
+		if err != nil {
+			return nil, err
+		}
+		compiledExprs[text] = c
+	}
+	args := make([]core.Value, len(c.params))
+	for i, p := range c.params {
+		pv, ok := row[p]
+		if !ok {
+			return nil, fmt.Errorf("model: no column %s", p)
+		}
+		args[i] = core.Unpack(pv)
+	}
+	defer func() {
+		if x := recover(); x != nil {
+			err = fmt.Errorf("%v", x)
+		}
+	}()
+	if c.object {
+		ob := &core.SuObject{}
+		for i, p := range c.params {
+			ob.Set(core.SuStr(p), args[i])
+		}
+		return evalThread.Call(c.fn, ob), nil
+	}
+	return evalThread.Call(c.fn, args...), nil
+}
+
+func sortedKeys(m map[string]bool) []string {
+	var r []string
+	for k := range m {
+		r = append(r, k)
+	}
+	sort.Strings(r)
+	return r
+}
+
 func (e *exprT) eval(row env) (core.Value, error) {
+	if arithOps[e.op] && e.pureArith() {
+		return e.evalCompiled(row)
+	}
 	switch e.op {
 	case "const":
 		return core.Unpack(e.lit.packed), nil
